@@ -7,7 +7,6 @@ package props
 import (
 	"context"
 	"encoding/json"
-	"fmt"
 	"net"
 	"runtime/debug"
 	"sort"
@@ -134,12 +133,12 @@ func RunOne(t *testing.T, prop string, seed uint64, sc Scenario, o RunOpts, res 
 	defer func() {
 		res.WallUs = time.Since(wall).Microseconds()
 		if r := recover(); r != nil {
-			msg := fmt.Sprint(r)
+			msg := sp(r)
 			if strings.Contains(msg, "deadlock") && strings.Contains(msg, "bubble") {
 				res.Leaked = true
 				return
 			}
-			res.HarnessErr = fmt.Sprintf("panic in harness: %v\n%s", r, debug.Stack())
+			res.HarnessErr = sf("panic in harness: %v\n%s", r, debug.Stack())
 		}
 	}()
 	simhook.ResetPools()
